@@ -293,8 +293,9 @@ UpdateVals(s, cfg, unit) ==
    IN [s1 EXCEPT !.vals = nv, !.slashed = @ ++ lost]
 
 IsPayoutH(h, cfg) == h % cfg.stakePeriod = 0
-EndS(s, h, present, cfg, unit, cap) ==
-   LET dropped == \E i \in DOMAIN s.vals : s.vals[i].toDrop
+\* keyChanged: a candidate changed its public key in this block (the set is then updated as well)
+EndS(s, h, present, cfg, unit, cap, keyChanged) ==
+   LET dropped == keyChanged \/ \E i \in DOMAIN s.vals : s.vals[i].toDrop
        s1 == AccrueS(s, present, cap)
        s2 == IF IsPayoutH(h, cfg) THEN PayAll(s1, 1) ELSE s1
        s3 == IF s.emission \prec cap THEN [s2 EXCEPT !.emission = @ ++ s.safeReward] ELSE s2
